@@ -33,6 +33,21 @@ mod scanner;
 mod verif;
 mod vm;
 
+// println!() and eprintln!() panic when the stream cannot be written (a full
+// device, a closed pipe). Messages of the interpreter itself are best effort.
+macro_rules! outln {
+    ($($arg:tt)*) => {{
+        use std::io::Write;
+        let _ = writeln!(io::stdout(), $($arg)*);
+    }};
+}
+macro_rules! errln {
+    ($($arg:tt)*) => {{
+        use std::io::Write;
+        let _ = writeln!(io::stderr(), $($arg)*);
+    }};
+}
+
 const HISTORY_LINES: usize = 8;
 const PKG_VERSION: &str = env!("CARGO_PKG_VERSION");
 const PKG_DESC: &str = env!("CARGO_PKG_DESCRIPTION");
@@ -56,8 +71,8 @@ fn main() {
 
 /// Function to run the REPL
 pub fn run_prompt(args: Vec<String>) {
-    println!("{} v{}", PKG_DESC, PKG_VERSION);
-    println!("Type quit to quit REPL");
+    outln!("{} v{}", PKG_DESC, PKG_VERSION);
+    outln!("Type quit to quit REPL");
 
     let mut cmds = vec!["quit".to_string()];
 
@@ -99,7 +114,7 @@ pub fn run_prompt(args: Vec<String>) {
                 let constants_before = constants.clone();
                 let mut compiler = Compiler::new_with_state(symtab, constants);
                 if let Err(e) = compiler.compile(program) {
-                    eprintln!("{}", e);
+                    errln!("{}", e);
                     symtab = symtab_before;
                     constants = constants_before;
                     continue;
@@ -109,7 +124,7 @@ pub fn run_prompt(args: Vec<String>) {
                 init_builtin_vars(&vm, args.clone());
                 let err = vm.run();
                 if let Err(err) = err {
-                    eprintln!("{}", err);
+                    errln!("{}", err);
                     globals = vm.globals;
                     symtab = compiler.symtab;
                     constants = compiler.constants;
@@ -119,7 +134,7 @@ pub fn run_prompt(args: Vec<String>) {
                 let stack_elem = vm.last_popped();
                 // print last popped element if it is not null
                 if ends_in_expr && !matches!(stack_elem.as_ref(), Object::Null) {
-                    println!("{}", stack_elem);
+                    outln!("{}", stack_elem);
                 }
                 globals = vm.globals;
                 symtab = compiler.symtab;
@@ -127,7 +142,7 @@ pub fn run_prompt(args: Vec<String>) {
             }
         }
     }
-    println!("\nExiting...");
+    outln!("\nExiting...");
 }
 
 /// Function to run a script file
@@ -137,7 +152,7 @@ pub fn run_prompt(args: Vec<String>) {
 pub fn run_file(path: &str, args: Vec<String>, skip_pcap: bool) {
     let buf = fs::read_to_string(path);
     if buf.is_err() {
-        eprintln!("Failed to read file {}", path);
+        errln!("Failed to read file {}", path);
         return;
     }
     let buf = buf.unwrap();
@@ -167,7 +182,7 @@ pub fn run_buf(buf: String, args: Vec<String>, cmd_mode: bool, skip_pcap: bool) 
 
     let mut compiler = Compiler::new();
     if let Err(e) = compiler.compile(program) {
-        eprintln!("{}", e);
+        errln!("{}", e);
         return;
     }
     let bytecode = compiler.bytecode();
@@ -182,7 +197,7 @@ pub fn run_buf(buf: String, args: Vec<String>, cmd_mode: bool, skip_pcap: bool) 
     let err = vm.run();
     let failed = err.is_err();
     if let Err(err) = err {
-        eprintln!("{}", err);
+        errln!("{}", err);
     }
 
     // After a runtime error, or when the program does not end in an
@@ -192,7 +207,7 @@ pub fn run_buf(buf: String, args: Vec<String>, cmd_mode: bool, skip_pcap: bool) 
         let stack_elem = vm.last_popped();
         // print last popped element if it is not null
         if !matches!(stack_elem.as_ref(), Object::Null) {
-            println!("{}", stack_elem);
+            outln!("{}", stack_elem);
         }
     }
 
@@ -217,7 +232,7 @@ fn run_filters(
     let pcap_in = match Pcap::from_file(Rc::new(FileHandle::Stdin)) {
         Ok(pcap) => pcap,
         Err(err) => {
-            eprintln!("{}", err);
+            errln!("{}", err);
             return;
         }
     };
@@ -228,7 +243,7 @@ fn run_filters(
         let out = match Pcap::new_like(Rc::new(FileHandle::Stdout), &pcap_in) {
             Ok(pcap) => pcap,
             Err(err) => {
-                eprintln!("{}", err);
+                errln!("{}", err);
                 return;
             }
         };
@@ -246,11 +261,11 @@ fn run_filters(
                 // Run filter statements on the packet
                 for filter in &filters {
                     if let Err(err) = vm.push_filter_frame(filter) {
-                        eprintln!("{}", err);
+                        errln!("{}", err);
                         break 'out;
                     }
                     if let Err(err) = vm.run() {
-                        eprintln!("{}", err);
+                        errln!("{}", err);
                         break 'out;
                     }
                     // If the result of the filter is true, then write the packet to stdout
@@ -260,13 +275,13 @@ fn run_filters(
                         Ok(true) => {
                             if let Some(out) = &pcap_out {
                                 if let Err(err) = out.write_all(pkt.clone()) {
-                                    eprintln!("{}", err);
+                                    errln!("{}", err);
                                     break 'out;
                                 }
                             }
                         }
                         Err(err) => {
-                            eprintln!("{}", err);
+                            errln!("{}", err);
                             break;
                         }
                         Ok(false) => {}
@@ -276,7 +291,7 @@ fn run_filters(
             }
             Err(err) => {
                 if err.kind() != io::ErrorKind::UnexpectedEof {
-                    eprintln!("{}", err);
+                    errln!("{}", err);
                 }
                 break;
             }
@@ -288,11 +303,11 @@ fn run_filters(
     // Call the end filter
     if let Some(filter) = filter_end {
         if let Err(err) = vm.push_filter_frame(&filter) {
-            eprintln!("{}", err);
+            errln!("{}", err);
             return;
         }
         if let Err(err) = vm.run() {
-            eprintln!("{}", err);
+            errln!("{}", err);
             return;
         }
         // There is nothing to write to stdout for the end filter
@@ -300,7 +315,7 @@ fn run_filters(
         match vm.pop_filter_frame() {
             Ok(_) => {}
             Err(err) => {
-                eprintln!("{}", err);
+                errln!("{}", err);
             }
         }
     }
@@ -319,7 +334,7 @@ fn parse_program(source: &str) -> Option<Program> {
 
 fn print_parse_errors(parser: &parser::Parser) -> bool {
     if parser.print_errors() {
-        eprintln!("{} parse errors", parser.parse_errors().len());
+        errln!("{} parse errors", parser.parse_errors().len());
         true
     } else {
         false
